@@ -488,3 +488,9 @@ def repeated_statement(change: int) -> bool:
     post: _
     """
     return done(fast.native(_repeated, fast.pick(change, 4)))
+
+# ------------------------------------------------------------------ the rowtype drives the arrow metadata the connector decodes with (shared with C06)
+import obligations.C06  # noqa: E402,F401
+from vf.registry import alias  # noqa: E402
+
+alias("C17.rowtype_precision_and_scale_are_the_types", "C06.rowtype_of_every_reachable_type", "the HTTP path decodes DECIMAL values with the precision / scale of the rowtype (to_sf_schema metadata), so a wrong rowtype changes VALUES over HTTP only: DECIMAL(p,s) for every 1 <= p <= 38, 0 <= s <= p")
